@@ -1290,5 +1290,7 @@ class Interpreter(BaseInterpreter[TContext, TEvent]):
             #    invokes a child machine per request.
             if child_interpreter is not None:
                 self._actors.pop(child_interpreter.id, None)
-                if child_interpreter.status == "running":
-                    await child_interpreter.stop()
+                # 📝 Also when the child finished on its own: a `done` or
+                #    `error` child still owns whatever it spawned or armed
+                #    (`stop()` is a no-op once it is stopped).
+                await child_interpreter.stop()
